@@ -26,3 +26,10 @@ Proof.
   intros e He. apply in_app_or in He as [He|[<-|[]]]; [|exact I].
   apply in_map_iff in He as (h & <- & _). exact I.
 Qed.
+
+(* the tail repair done by open must follow EVERY record length the writer can produce (the writer
+   and replay have no bound below u32::MAX): the model's [repair] / [scan_end] has no bound, and the
+   theorems are about that model.  A length cap in complete_prefix_len would cut a valid large record
+   -- and everything after it -- off the log on the next open. *)
+Lemma scan_follows_every_length : gen_tx_scan_cap = None.
+Proof. reflexivity. Qed.
